@@ -10,7 +10,7 @@ import Nstd.Str.LemmasAlias
   creates).  Specification: `Nstd.Str.Spec` (one byte list per variable).  `run s ops = some s'`
   means: the history `ops` executed from `s` without a fault of the checked memory model and
   ended in `s'`.  `Good s` is the invariant of the reachable states (heap invariant + empty temporaries):
-  `reach_good` shows every reachable state is `Good` (reachable = by any history of the 39 calls of `Op`), `good_closed` that `Good` is kept by every call of the
+  `reach_good` shows every reachable state is `Good` (reachable = by any history of the 41 calls of `Op`), `good_closed` that `Good` is kept by every call of the
   model (mutating calls, extended operations, read-only calls with their C string views, own-pointer calls);
   the theorems assume `Good s` only, so they apply after any mixed history.  All theorems quantify over every number of variables, every content of the
   foreign regions and every history.
@@ -774,5 +774,356 @@ theorem alias_attach_printf_cases :
       = some ([some 60, some 97, some 98, some 99, some 100, some 62], [some 97, some 98, some 99, some 100]) := by
   decide +kernel
 
+
+/-- **The `(n)` forms of the static comparisons** on NUL-free C strings: `compare(s1, s2, n)` compares the first `n`
+    chars, `compareIgnoreCase(s1, s2, n)` the first `n` ASCII-lowered chars. -/
+theorem static_compareN_spec {a b : List Nat} (hza : ∀ x ∈ a, x ≠ 0) (hzb : ∀ x ∈ b, x ≠ 0) (n : Nat) :
+    (sCompareN a b n = 0 ↔ a.take n = b.take n) ∧ (sCompareN a b n < 0 ↔ a.take n < b.take n) ∧
+    (sCompareICN a b n = 0 ↔ (a.map toLower).take n = (b.map toLower).take n) ∧
+    (sCompareICN a b n < 0 ↔ (a.map toLower).take n < (b.map toLower).take n) := by
+  have h1 : ∀ x ∈ a.map toLower, x ≠ 0 := by
+    intro x hx; obtain ⟨y, hy, rfl⟩ := List.mem_map.mp hx; exact toLower_ne_zero (hza y hy)
+  have h2 : ∀ x ∈ b.map toLower, x ≠ 0 := by
+    intro x hx; obtain ⟨y, hy, rfl⟩ := List.mem_map.mp hx; exact toLower_ne_zero (hzb y hy)
+  have t : ∀ {l : List Nat}, (∀ x ∈ l, x ≠ 0) → ∀ x ∈ l.take n, x ≠ 0 := fun h x hx => h x (List.mem_of_mem_take hx)
+  unfold sCompareN sCompareICN
+  rw [strncmp_take n a b hza, strncmp_take n _ _ h1]
+  exact ⟨strcmp_eq_zero (t hza) (t hzb), strcmp_neg (t hza) (t hzb), strcmp_eq_zero (t h1) (t h2), strcmp_neg (t h1) (t h2)⟩
+
+/-- **static `startsWith(const char* in, const String& str)`** decides whether the value of `str` is a prefix of the C
+    string (both NUL-free); **`operator==` / `operator!=` with a literal** decide equality with the chars of the literal
+    (everything in front of its NUL) -/
+theorem static_startsWith_literal_spec {s : St} (g : Good s) {v w r : Nat} {a b : List Nat}
+    (ha : allSome (absVar s v) = some a) (hb : allSome (absVar s w) = some b) :
+    (∀ inp res, (∀ x ∈ inp, x ≠ 0) → (∀ x ∈ b, x ≠ 0) → sStartsWith s inp w = some res → (res = true ↔ b <+: inp)) ∧
+    (∀ res, equalLit s v r = some res → (res = true ↔ a = (s.regs r).take ((s.regs r).length - 1))) ∧
+    (∀ res, notEqualLit s v r = some res → (res = true ↔ a ≠ (s.regs r).take ((s.regs r).length - 1))) := by
+  have h := g.inv
+  refine ⟨?_, ?_, ?_⟩
+  · intro inp res hz hzb e
+    simp only [sStartsWith, contentVal_eq h, hb, Option.bind_eq_bind, Option.bind_some, Option.pure_def,
+      Option.some.injEq] at e
+    subst e
+    rw [strncmp_take _ _ _ hz, List.take_length]
+    simp only [beq_iff_eq]
+    rw [strcmp_eq_zero (fun x hx => hz x (List.mem_of_mem_take hx)) hzb, List.prefix_iff_eq_take]
+    exact eq_comm
+  · intro res e
+    obtain ⟨dv, hdv⟩ := desc_some h v
+    have lv : dv.len = a.length := by rw [desc_len h hdv, allSome_eq ha, List.length_map]
+    simp only [equalLit, hdv, Option.bind_eq_bind, Option.bind_some, contentVal_eq h, ha] at e
+    by_cases c : dv.len ≠ (s.regs r).length - 1
+    · simp only [c, ne_eq, not_false_eq_true, if_true, Option.pure_def, Option.some.injEq] at e
+      subst e
+      simp only [Bool.false_eq_true, false_iff]
+      intro x
+      have := congrArg List.length x
+      simp only [List.length_take] at this
+      omega
+    · simp only [c, if_false, Option.pure_def, Option.some.injEq] at e
+      subst e
+      simp
+  · intro res e
+    obtain ⟨dv, hdv⟩ := desc_some h v
+    have lv : dv.len = a.length := by rw [desc_len h hdv, allSome_eq ha, List.length_map]
+    simp only [notEqualLit, hdv, Option.bind_eq_bind, Option.bind_some, contentVal_eq h, ha] at e
+    by_cases c : dv.len ≠ (s.regs r).length - 1
+    · simp only [c, ne_eq, not_false_eq_true, if_true, Option.pure_def, Option.some.injEq] at e
+      subst e
+      simp only [true_iff]
+      intro x
+      have := congrArg List.length x
+      simp only [List.length_take] at this
+      omega
+    · simp only [c, if_false, Option.pure_def, Option.some.injEq] at e
+      subst e
+      simp
+
+/-- **`isSpace` and the `<cctype>` wrappers for every byte** (`isSpace` over the bounds read from String.hpp; the others
+    are the "C"-locale definitions the model assumes, shown here to be the usual classes): white space is TAB…CR and
+    the blank; digits, upper, lower, alpha = upper ∪ lower, alnum = alpha ∪ digit, hex digits, printable = 0x20…0x7E,
+    punctuation = printable without alnum and blank; nothing above 0x7F belongs to any class. -/
+theorem char_classes_spec :
+    (∀ c, c < 256 → (isSpaceC c = true ↔ (9 ≤ c ∧ c ≤ 13) ∨ c = 32)) ∧
+    (∀ c, c < 256 → ((isDigitC c = true ↔ 48 ≤ c ∧ c ≤ 57) ∧ (isUpperC c = true ↔ 65 ≤ c ∧ c ≤ 90) ∧
+      (isLowerC c = true ↔ 97 ≤ c ∧ c ≤ 122))) ∧
+    (∀ c, c < 256 → (isAlphaC c = (isUpperC c || isLowerC c) ∧ isAlnumC c = (isAlphaC c || isDigitC c))) ∧
+    (∀ c, c < 256 → (isXDigitC c = true ↔ (48 ≤ c ∧ c ≤ 57) ∨ (65 ≤ c ∧ c ≤ 70) ∨ (97 ≤ c ∧ c ≤ 102))) ∧
+    (∀ c, c < 256 → ((isPrintC c = true ↔ 32 ≤ c ∧ c ≤ 126) ∧
+      (isPunctC c = true ↔ isPrintC c = true ∧ isAlnumC c = false ∧ c ≠ 32))) ∧
+    (∀ c, c < 256 → 128 ≤ c →
+      isSpaceC c = false ∧ isAlnumC c = false ∧ isPrintC c = false ∧ isPunctC c = false ∧ isXDigitC c = false) ∧
+    (∀ c, c < 256 → isUpperC c = true → toLower c = c + 32 ∧ isLowerC (toLower c) = true) ∧
+    (∀ c, c < 256 → isLowerC c = true → toUpper c = c - 32 ∧ isUpperC (toUpper c) = true) := by
+  refine ⟨by decide +kernel, by decide +kernel, by decide +kernel, by decide +kernel, by decide +kernel,
+    by decide +kernel, ?_, ?_⟩
+  · unfold toLower; decide +kernel
+  · unfold toUpper; decide +kernel
+
+/-! ### own-pointer `printf`: the general statement -/
+
+/-- **`s.printf("<pre>%s<post>", (const char*)s)` in general.**  Let the value `c` of `s` be specified and NUL-free.
+    * If, once the pointer has been taken, `s` owns its block exclusively — it did before, or the C string view had to
+      copy unterminated attached memory — the call is a **fault**: `detach(0, 200)` deletes the block the argument points
+      into (use after free) or keeps it and `vsnprintf` writes over its own argument.
+    * Otherwise (empty string, literal / attached memory with its NUL, block shared with another String) the call
+      returns `pre ++ c ++ post` — exactly as if the argument had been copied first — its length as result, changes
+      no other variable and keeps the invariant. -/
+theorem printf_alias_spec {s : St} (g : Good s) {v : Nat} (hv : validVar s v = true) {c : List Nat}
+    (hc : allSome (absVar s v) = some c) (hz : ∀ x ∈ c, x ≠ 0) (pre post : List Nat) :
+    ((OwnsExcl s v ∨ termByte s v ≠ some (some 0)) → printfAlias s v pre post = none) ∧
+    (¬ OwnsExcl s v → termByte s v = some (some 0) →
+      ∃ s', printfAlias s v pre post = some (s', (pre ++ c ++ post).length) ∧
+        Eff s s' v ((pre ++ c ++ post).map some) ∧ Good s') := by
+  have V := valid_facts hv
+  -- the part after the pointer has been taken, on a state `s1` that owns exclusively: fault
+  have core_fault : ∀ s1 : St, Inv s1 → OwnsExcl s1 v →
+      (do
+        let d0 ← desc s1 v
+        let s ← detach s1 v 0 Generated.printfBuf
+        let d1 ← desc s v
+        if d1.base = d0.base then none
+        else do
+          let arg ← cstrAt s d0.base d0.off
+          printfTail s v (pre ++ arg ++ post)) = none := by
+    intro s1 h1 ⟨b, blk, hloc, hb, r1⟩
+    simp only [desc_blk hloc hb, Option.bind_eq_bind, Option.bind_some]
+    cases h3 : detach s1 v 0 Generated.printfBuf with
+    | none => rfl
+    | some s2 =>
+      simp only [Option.bind_some]
+      rcases detach_cases (desc_blk hloc hb) h3 with ⟨_, _, bytes, hw⟩ | ⟨_, bytes, cap, rfl⟩
+      · obtain ⟨b', blk', hv', hb', _, rfl⟩ := writeOwn_eq hw
+        rw [hloc] at hv'; injection hv' with hv'; subst hv'
+        have : desc { s1 with heap := upd s1.heap b (some { blk' with bytes := bytes, len := 0 }) } v
+            = some ⟨.blk b, 0, 0, blk'.cap, blk'.ref⟩ := by simp [desc, hloc, upd_same]
+        simp only [this, Option.bind_some, if_true]
+      · have F := release_fields s1 v
+        have hd1 : desc (allocSet s1 v bytes 0 cap) v = some ⟨.blk s1.next, 0, 0, cap, 1⟩ := by
+          simp [desc, allocSet, setEmpty, setVar, upd_same, F.2.1]
+        have hne : (Base.blk s1.next) ≠ Base.blk b := by
+          intro x; injection x with x; have := h1.bound hloc; omega
+        simp only [hd1, Option.bind_some, hne, if_false]
+        have hm : memOf (allocSet s1 v bytes 0 cap) (.blk b) = none := by
+          have hb2 : b ≠ (setEmpty s1 v).next := by
+            simp only [setEmpty, setVar, F.2.1]; have := h1.bound hloc; omega
+          simp only [memOf, allocSet, upd_other _ _ _ _ hb2]
+          simp only [setEmpty, setVar, release, hloc, hb, r1, if_true, upd_same, Option.map_none]
+        simp only [cstrAt, hm, Option.bind_eq_bind, Option.bind_none]
+  constructor
+  · intro hbad
+    obtain ⟨s1, h1⟩ := cview_some g.inv v
+    obtain ⟨E1, t1⟩ := eff_cview g.inv V.1 h1
+    have X1 : OwnsExcl s1 v := by
+      rcases hbad with x | x
+      · -- owned text is terminated: the view changes nothing
+        obtain ⟨b, blk, hloc, hb, r1⟩ := x
+        have := cview_terminated (owned_terminated g hloc)
+        rw [this] at h1; injection h1 with h1; subst h1
+        exact ⟨b, blk, hloc, hb, r1⟩
+      · -- unterminated: the view detaches
+        obtain ⟨d, hd⟩ := desc_some g.inv v
+        simp only [cview, hd, Option.bind_eq_bind, Option.bind_some, Option.bind_eq_some_iff] at h1
+        obtain ⟨t, ht, h1⟩ := h1
+        by_cases t0 : t = 0
+        · exfalso
+          subst t0
+          apply x
+          simp only [termByte, hd, Option.bind_eq_bind, Option.bind_some]
+          simp only [rdVal, Option.bind_eq_bind, Option.bind_eq_some_iff] at ht
+          obtain ⟨m, hm, ht⟩ := ht
+          simp only [hm, Option.bind_some]
+          cases hx : m[d.off + d.len]? with
+          | none => simp [hx] at ht
+          | some y =>
+            cases y with
+            | none => simp [hx] at ht
+            | some z => simp only [hx, Option.some.injEq] at ht; rw [ht]
+        · simp only [ne_eq, t0, not_false_eq_true, if_true] at h1
+          obtain ⟨_, b, blk, hloc, hb, r1, _, _⟩ := eff_detach g.inv V.1 h1
+          exact ⟨b, blk, hloc, hb, r1⟩
+    simp only [printfAlias, h1, Option.bind_eq_bind, Option.bind_some]
+    exact core_fault s1 E1.inv X1
+  · intro hne ht
+    have h := g.inv
+    have hcv := cview_terminated ht
+    obtain ⟨d0, hd0⟩ := desc_some h v
+    obtain ⟨s2, h2⟩ := detach_some h v (c := 0) (m := Generated.printfBuf) (Nat.zero_le _)
+    obtain ⟨E2, X2⟩ := eff_detach h V.1 h2
+    have hv2 : v < s2.n := by rw [E2.n]; exact V.1
+    have F := release_fields s v
+    rcases detach_cases hd0 h2 with ⟨r1, _, _⟩ | ⟨_, bytes, cap, rfl⟩
+    · exfalso
+      apply hne
+      cases hloc : s.vars v with
+      | empty => rw [desc_empty hloc] at hd0; injection hd0 with hd0; subst hd0; simp at r1
+      | foreign r off len => rw [desc_foreign hloc] at hd0; injection hd0 with hd0; subst hd0; simp at r1
+      | blk b =>
+        obtain ⟨blk, hb⟩ := h.live v b hloc
+        rw [desc_blk hloc hb] at hd0; injection hd0 with hd0; subst hd0
+        exact ⟨b, blk, hloc, hb, r1⟩
+    · have hd1 : desc (allocSet s v bytes 0 cap) v = some ⟨.blk s.next, 0, 0, cap, 1⟩ := by
+        simp [desc, allocSet, setEmpty, setVar, upd_same, F.2.1]
+      -- the old storage: not the new block, and still readable
+      have hp : ∀ b, d0.base = .blk b → b < s.next ∧ ∀ blk, s.vars v = .blk b → s.heap b = some blk → blk.ref ≠ 1 := by
+        intro b hb0
+        cases hloc : s.vars v with
+        | empty => rw [desc_empty hloc] at hd0; injection hd0 with hd0; subst hd0; cases hb0
+        | foreign r off len => rw [desc_foreign hloc] at hd0; injection hd0 with hd0; subst hd0; cases hb0
+        | blk bv =>
+          obtain ⟨blk, hbv⟩ := h.live v bv hloc
+          rw [desc_blk hloc hbv] at hd0; injection hd0 with hd0; subst hd0
+          injection hb0 with hb0; subst hb0
+          refine ⟨h.bound hloc, ?_⟩
+          intro blk' _ hb' r1
+          exact hne ⟨_, blk', hloc, hb', r1⟩
+      have hbase : (Base.blk s.next) ≠ d0.base := by
+        intro x
+        have := (hp s.next x.symm).1
+        omega
+      have harg : cstrAt (allocSet s v bytes 0 cap) d0.base d0.off = some c := by
+        have := cstrVar_eq h ht hc hz
+        simp only [cstrVar, hd0, Option.bind_eq_bind, Option.bind_some, Nat.add_zero] at this
+        simp only [cstrAt, memOf_allocSet h bytes 0 cap hp] at this ⊢
+        exact this
+      obtain ⟨⟨s3, r⟩, h3⟩ := printfTail_some E2.inv hv2 X2 (pre ++ c ++ post)
+      obtain ⟨E3, hr⟩ := eff_printfTail E2.inv hv2 X2 h3
+      subst hr
+      have E := E2.trans E3
+      refine ⟨s3, ?_, E, good_of_eff g E hv⟩
+      simp only [printfAlias, hcv, hd0, h2, hd1, hbase, harg, h3, Option.bind_eq_bind, Option.bind_some, if_false]
+
+/-- **`s.attach((const char*)s + off, n)`: the precise fault condition** (for `off + n ≤ length()`): the call is a fault
+    exactly when, once the pointer has been taken, `s` holds a heap block (it did before, or the C string view had to copy
+    unterminated attached memory); otherwise it is executed (and `attach_alias_spec` gives the resulting sub-range). -/
+theorem attach_alias_cases {s : St} (g : Good s) {v off n : Nat} (hv : validVar s v = true)
+    (hon : off + n ≤ (absVar s v).length) :
+    (((∃ b, s.vars v = .blk b) ∨ termByte s v ≠ some (some 0)) → attachAlias s v off n = none) ∧
+    ((¬ ∃ b, s.vars v = .blk b) → termByte s v = some (some 0) → ∃ s', attachAlias s v off n = some s') := by
+  have V := valid_facts hv
+  have h := g.inv
+  constructor
+  · intro hbad
+    obtain ⟨s1, h1⟩ := cview_some h v
+    obtain ⟨E1, t1⟩ := eff_cview h V.1 h1
+    have X1 : ∃ b, s1.vars v = .blk b := by
+      rcases hbad with ⟨b, hloc⟩ | x
+      · have := cview_terminated (owned_terminated g hloc)
+        rw [this] at h1; injection h1 with h1; subst h1
+        exact ⟨b, hloc⟩
+      · by_cases ht : termByte s v = some (some 0)
+        · exact absurd ht x
+        · obtain ⟨d, hd⟩ := desc_some h v
+          simp only [cview, hd, Option.bind_eq_bind, Option.bind_some, Option.bind_eq_some_iff] at h1
+          obtain ⟨t, htv, h1⟩ := h1
+          by_cases t0 : t = 0
+          · exfalso
+            subst t0
+            apply ht
+            simp only [termByte, hd, Option.bind_eq_bind, Option.bind_some]
+            simp only [rdVal, Option.bind_eq_bind, Option.bind_eq_some_iff] at htv
+            obtain ⟨m, hm, htv⟩ := htv
+            simp only [hm, Option.bind_some]
+            cases hx : m[d.off + d.len]? with
+            | none => simp [hx] at htv
+            | some y =>
+              cases y with
+              | none => simp [hx] at htv
+              | some z => simp only [hx, Option.some.injEq] at htv; rw [htv]
+          · simp only [ne_eq, t0, not_false_eq_true, if_true] at h1
+            obtain ⟨_, b, blk, hloc, _⟩ := eff_detach h V.1 h1
+            exact ⟨b, hloc⟩
+    obtain ⟨b, hloc⟩ := X1
+    obtain ⟨blk, hb⟩ := E1.inv.live v b hloc
+    simp only [attachAlias, h1, desc_blk hloc hb, Option.bind_eq_bind, Option.bind_some]
+    split <;> rfl
+  · intro hnb ht
+    obtain ⟨d0, hd0⟩ := desc_some h v
+    have hl := desc_len h hd0
+    have c : ¬ off + n > d0.len := by omega
+    simp only [attachAlias, cview_terminated ht, hd0, Option.bind_eq_bind, Option.bind_some, c, if_false]
+    cases hloc : s.vars v with
+    | empty => rw [desc_empty hloc] at hd0; injection hd0 with hd0; subst hd0; exact ⟨_, rfl⟩
+    | foreign r o l => rw [desc_foreign hloc] at hd0; injection hd0 with hd0; subst hd0; exact ⟨_, rfl⟩
+    | blk b => exact absurd ⟨b, hloc⟩ hnb
+
+/-- `split(HashSet<String>&, …)`: what the set holds (`dedupToks`) has no duplicates and the same members as the list -/
+theorem dedupToks_spec (l : List (List Byte)) : (dedupToks l).Nodup ∧ ∀ t, t ∈ dedupToks l ↔ t ∈ l := by
+  have gen : ∀ (l acc : List (List Byte)), acc.Nodup →
+      (l.foldl (fun acc t => if acc.contains t then acc else acc ++ [t]) acc).Nodup ∧
+      ∀ t, t ∈ l.foldl (fun acc t => if acc.contains t then acc else acc ++ [t]) acc ↔ t ∈ acc ∨ t ∈ l := by
+    intro l
+    induction l with
+    | nil => intro acc ha; exact ⟨ha, fun t => by simp⟩
+    | cons x r ih =>
+      intro acc ha
+      simp only [List.foldl_cons]
+      by_cases c : acc.contains x = true
+      · simp only [c, if_true]
+        obtain ⟨n1, m1⟩ := ih acc ha
+        refine ⟨n1, fun t => ?_⟩
+        rw [m1 t]
+        have hx : x ∈ acc := by simpa using c
+        constructor
+        · rintro (a | a)
+          · exact Or.inl a
+          · exact Or.inr (List.mem_cons_of_mem _ a)
+        · rintro (a | a)
+          · exact Or.inl a
+          · rcases List.mem_cons.mp a with rfl | a
+            · exact Or.inl hx
+            · exact Or.inr a
+      · simp only [c, Bool.false_eq_true, if_false]
+        have hx : x ∉ acc := by simpa using c
+        obtain ⟨n1, m1⟩ := ih (acc ++ [x]) (by
+          rw [List.nodup_append]
+          refine ⟨ha, by simp, ?_⟩
+          intro a ha' b hb
+          simp only [List.mem_singleton] at hb
+          subst hb
+          intro e; subst e; exact hx ha')
+        refine ⟨n1, fun t => ?_⟩
+        rw [m1 t]
+        simp only [List.mem_append, List.mem_cons, List.not_mem_nil, or_false]
+        constructor
+        · rintro ((a | a) | a)
+          · exact Or.inl a
+          · exact Or.inr (Or.inl a)
+          · exact Or.inr (Or.inr a)
+        · rintro (a | a | a)
+          · exact Or.inl (Or.inl a)
+          · exact Or.inl (Or.inr a)
+          · exact Or.inr a
+  obtain ⟨n1, m1⟩ := gen l [] List.nodup_nil
+  exact ⟨n1, fun t => by rw [dedupToks, m1 t]; simp⟩
+
+/-- **`printf` relative to the libc formatter — capacity handling for every result length.**  Whatever text `out` the
+    formatter produces for the format and its arguments (`%f`, widths, precisions, `%x`, …; any length, below, at and
+    above the 200-char first buffer and the current capacity), the call runs without fault — both `vsnprintf`
+    attempts store inside the block, the reallocation in between restores the invariant — the String then holds exactly
+    `out`, no other variable and no foreign byte changes, the invariant holds (so the C string view is terminated:
+    `cstr_terminated`) and the capacity is at least the length.  `String::fromDouble` (`Op.fromOut`) likewise. -/
+theorem printf_any_output {s : St} (g : Good s) {v : Nat} (hv : validVar s v = true) (out : List Nat) :
+    (∃ s', step s (.printfO v out) = some s' ∧ absVar s' v = out.map some ∧ (∀ w, w ≠ v → absVar s' w = absVar s w) ∧
+      Good s' ∧ s'.regs = s.regs ∧ ∀ c, capacity s' v = some c → c = 0 ∨ out.length ≤ c) ∧
+    (∃ s', step s (.fromOut v out) = some s' ∧ absVar s' v = out.map some ∧ (∀ w, w ≠ v → absVar s' w = absVar s w) ∧
+      Good s' ∧ s'.regs = s.regs) := by
+  constructor
+  · obtain ⟨s', e⟩ := no_fault g (op := .printfO v out) hv rfl
+    obtain ⟨val, E, hx⟩ := step_ok g e
+    have := hx _ rfl
+    subst this
+    have g' := good_step g e
+    refine ⟨s', e, E.self, E.other, g', E.regs, ?_⟩
+    intro c hc
+    have := (capacity_spec g' (v := v)).1 c hc
+    have hs : absVar s' v = out.map some := E.self
+    rw [hs, List.length_map] at this
+    exact this
+  · obtain ⟨s', e⟩ := no_fault g (op := .fromOut v out) hv rfl
+    obtain ⟨val, E, hx⟩ := step_ok g e
+    have := hx _ rfl
+    subst this
+    exact ⟨s', e, E.self, E.other, good_step g e, E.regs⟩
 
 end Nstd.Str
